@@ -38,6 +38,15 @@ type Clause struct {
 	Text  string
 	Expr  ast.Expr
 	Line  string
+	Cond  ast.Expr // modifies items: "item if cond"
+}
+
+// CaseSplit: "cases <expr> in lo..hi" — the proof is split by the value of an integer expression of
+// the entry state (one run per value plus one run for "outside the range").
+type CaseSplit struct {
+	Cl     *Clause
+	Lo, Hi int64
+	Bool   bool // "cases bool <expr>": two runs
 }
 
 type LoopSpec struct {
@@ -60,6 +69,10 @@ type FuncSpec struct {
 	Loops     map[int]*LoopSpec
 	Src       string
 	PanicsOK  bool
+	Cases     []*CaseSplit
+	Splits    []*Clause // callers fork on these pre-state conditions when using the contract
+	IsLemma   bool
+	LemmaParams []PureParam
 }
 
 type PureParam struct {
@@ -90,6 +103,7 @@ type SpecSet struct {
 	NonNil   map[string]bool // pkgpath.global
 	Frozen   map[string]bool
 	Files    []string
+	templates map[string]*specTemplate
 }
 
 func NewSpecSet() *SpecSet {
@@ -98,9 +112,9 @@ func NewSpecSet() *SpecSet {
 
 // LoadSpecFile parses one contract file for package pkgPath.
 func (ss *SpecSet) LoadSpecFile(path, pkgPath string) error {
-	f, err := os.Open(path)
-	if err != nil {
-		return err
+	f, err0 := os.Open(path)
+	if err0 != nil {
+		return err0
 	}
 	defer f.Close()
 	ss.Files = append(ss.Files, path)
@@ -108,6 +122,7 @@ func (ss *SpecSet) LoadSpecFile(path, pkgPath string) error {
 	sc.Buffer(make([]byte, 1<<20), 1<<20)
 	var lines []string
 	var nums []int
+	var err error
 	ln := 0
 	pending := ""
 	pendingLn := 0
@@ -136,6 +151,10 @@ func (ss *SpecSet) LoadSpecFile(path, pkgPath string) error {
 		}
 		lines = append(lines, t)
 		nums = append(nums, pendingLn)
+	}
+	lines, nums, err = expandTemplates(lines, nums, ss)
+	if err != nil {
+		return fmt.Errorf("%s: %v", path, err)
 	}
 	var cur *FuncSpec
 	var curLoop *LoopSpec
@@ -171,21 +190,66 @@ func (ss *SpecSet) LoadSpecFile(path, pkgPath string) error {
 				return fmt.Errorf("%s: duplicate spec %s", where, key)
 			}
 			ss.Funcs[key] = cur
+		case "lemma":
+			lp, rp := strings.Index(rest, "("), strings.LastIndex(rest, ")")
+			if lp < 0 || rp < lp {
+				return fmt.Errorf("%s: bad lemma head", where)
+			}
+			name := strings.TrimSpace(rest[:lp])
+			key := pkgPath + ".lemma:" + name
+			cur = &FuncSpec{Key: key, PkgPath: pkgPath, Loops: map[int]*LoopSpec{}, Src: where, IsLemma: true}
+			for _, ps := range splitTop(rest[lp+1:rp], ',') {
+				ps = strings.TrimSpace(ps)
+				if ps == "" {
+					continue
+				}
+				n, ty := splitWord(ps)
+				cur.LemmaParams = append(cur.LemmaParams, PureParam{n, strings.TrimSpace(ty)})
+			}
+			for j := len(cur.LemmaParams) - 1; j >= 0; j-- {
+				if cur.LemmaParams[j].Type == "" && j+1 < len(cur.LemmaParams) {
+					cur.LemmaParams[j].Type = cur.LemmaParams[j+1].Type
+				}
+			}
+			curLoop = nil
+			ss.Funcs[key] = cur
 		case "props":
 			cur.Props = strings.Fields(rest)
 		case "trusted":
 			cur.Trusted = true
 		case "notypeinv":
 			cur.NoTypeInv = true
+		case "split":
+			if cur == nil {
+				return fmt.Errorf("%s: split outside spec", where)
+			}
+			cl, err := mk(rest)
+			if err != nil {
+				return err
+			}
+			cur.Splits = append(cur.Splits, cl)
 		case "requires", "ensures", "modifies", "allocates", "decreases", "invariant":
 			if cur == nil {
 				return fmt.Errorf("%s: clause outside spec", where)
 			}
 			if word == "modifies" {
 				for _, part := range splitTop(rest, ',') {
+					condTxt := ""
+					if j := indexTop(part, " if "); j >= 0 {
+						condTxt = part[j+4:]
+						part = part[:j]
+					}
 					cl, err := mk(part)
 					if err != nil {
 						return err
+					}
+					if condTxt != "" {
+						cc, err := mk(condTxt)
+						if err != nil {
+							return err
+						}
+						cl.Cond = cc.Expr
+						cl.Text += " if " + cc.Text
 					}
 					cur.Modifies = append(cur.Modifies, cl)
 				}
@@ -214,6 +278,28 @@ func (ss *SpecSet) LoadSpecFile(path, pkgPath string) error {
 				}
 				curLoop.Invs = append(curLoop.Invs, cl)
 			}
+		case "cases":
+			if strings.HasPrefix(rest, "bool ") && cur != nil {
+				cl, err := mk(strings.TrimPrefix(rest, "bool "))
+				if err != nil {
+					return err
+				}
+				cur.Cases = append(cur.Cases, &CaseSplit{Cl: cl, Bool: true})
+				continue
+			}
+			j := strings.LastIndex(rest, " in ")
+			if j < 0 || cur == nil {
+				return fmt.Errorf("%s: bad cases clause", where)
+			}
+			cl, err := mk(rest[:j])
+			if err != nil {
+				return err
+			}
+			cs := &CaseSplit{Cl: cl}
+			if _, err := fmt.Sscanf(strings.TrimSpace(rest[j+4:]), "%d..%d", &cs.Lo, &cs.Hi); err != nil {
+				return fmt.Errorf("%s: bad cases range", where)
+			}
+			cur.Cases = append(cur.Cases, cs)
 		case "loop":
 			var n int
 			fmt.Sscanf(rest, "%d", &n)
@@ -293,6 +379,95 @@ func (ss *SpecSet) LoadSpecFile(path, pkgPath string) error {
 		}
 	}
 	return nil
+}
+
+type specTemplate struct {
+	params []string
+	lines  []string
+}
+
+// expandTemplates handles `template name(p, …)` … `end` blocks and `use name(args)` lines by textual
+// substitution of whole identifiers. Templates are shared by all files loaded into the SpecSet.
+func expandTemplates(lines []string, nums []int, ss *SpecSet) ([]string, []int, error) {
+	if ss.templates == nil {
+		ss.templates = map[string]*specTemplate{}
+	}
+	var out []string
+	var on []int
+	var cur *specTemplate
+	for i, t := range lines {
+		word, rest := splitWord(t)
+		switch {
+		case word == "template":
+			lp, rp := strings.Index(rest, "("), strings.LastIndex(rest, ")")
+			if lp < 0 || rp < lp {
+				return nil, nil, fmt.Errorf("line %d: bad template head", nums[i])
+			}
+			cur = &specTemplate{}
+			for _, p := range splitTop(rest[lp+1:rp], ',') {
+				cur.params = append(cur.params, strings.TrimSpace(p))
+			}
+			ss.templates[strings.TrimSpace(rest[:lp])] = cur
+		case word == "end" && cur != nil:
+			cur = nil
+		case cur != nil:
+			cur.lines = append(cur.lines, t)
+		case word == "use":
+			lp, rp := strings.Index(rest, "("), strings.LastIndex(rest, ")")
+			if lp < 0 || rp < lp {
+				return nil, nil, fmt.Errorf("line %d: bad use", nums[i])
+			}
+			tp := ss.templates[strings.TrimSpace(rest[:lp])]
+			if tp == nil {
+				return nil, nil, fmt.Errorf("line %d: unknown template %q", nums[i], rest[:lp])
+			}
+			args := splitTop(rest[lp+1:rp], ',')
+			if len(args) != len(tp.params) {
+				return nil, nil, fmt.Errorf("line %d: template arity", nums[i])
+			}
+			for _, l := range tp.lines {
+				out = append(out, substIdents(l, tp.params, args))
+				on = append(on, nums[i])
+			}
+		default:
+			out = append(out, t)
+			on = append(on, nums[i])
+		}
+	}
+	return out, on, nil
+}
+
+func substIdents(s string, params, args []string) string {
+	var sb strings.Builder
+	i := 0
+	isId := func(b byte) bool {
+		return b == '_' || b >= 'a' && b <= 'z' || b >= 'A' && b <= 'Z' || b >= '0' && b <= '9'
+	}
+	for i < len(s) {
+		if isId(s[i]) && (i == 0 || !isId(s[i-1])) {
+			j := i
+			for j < len(s) && isId(s[j]) {
+				j++
+			}
+			w := s[i:j]
+			rep := w
+			for k, p := range params {
+				if p == w {
+					rep = "(" + strings.TrimSpace(args[k]) + ")"
+				}
+			}
+			// labels ("name:") must stay identifiers
+			if rep != w && j < len(s) && s[j] == ':' && !strings.HasPrefix(s[j:], "::") {
+				rep = w
+			}
+			sb.WriteString(rep)
+			i = j
+			continue
+		}
+		sb.WriteByte(s[i])
+		i++
+	}
+	return sb.String()
 }
 
 func splitWord(s string) (string, string) {
